@@ -49,7 +49,7 @@ C = {
    "as C06",
    SIM + "model refinement of error kinds under corruption faults; capacity knob"),
  "C11": ("exploration", "§5 C11",
-   "Bounded liveness: at sampled Partial states (every cut of prefix sweeps, deliveries of connections) faults stop, capacity is made unlimited and one more segment from a finite completion set (162 candidates; 4 for chunk size) is delivered: some member must yield Complete. The stated UTF-8 exception is recognised and counted; a state the reference model cannot complete either is counted as not judged. Independently, Partial where the model says Err is reported.",
+   "Bounded liveness: at sampled Partial states (every cut of prefix sweeps, deliveries of connections) faults stop, capacity is made unlimited and one more segment from a finite completion set (162 candidates; 4 for chunk size) is delivered: some member must yield Complete. The stated UTF-8 exception is recognised and counted; a state the reference model cannot complete either is counted as not judged. Independently, Partial where the model says Err is reported. One run in 25 is a threshold-probing run: one long clean element (target, reason, value, name, chunk extension) whose length sits at a power of two or a multiple of 32, a class-boundary byte within -40..+150 of the threshold, EOF at every cut around that byte.",
    "completion set is finite; states neither implementation nor model can complete from it are skipped (counted in evidence)",
    SIM + "bounded-liveness completion search at Partial states once faults stop; model cross-check"),
  "C13": ("exploration", "§5 C13",
@@ -65,15 +65,15 @@ C = {
    "configs sampled per call (all 128 on a quarter of the sampled calls)",
    SIM + "config as per-run knob; recorded deliveries replayed under other configs (metamorphic)"),
  "C16": ("exploration", "§5 C16",
-   "The entry point is a per-call knob; sampled calls are re-issued through every other entry point of the same kind on identical arguments and must agree in status, fields and headers; parse_headers on the header part must agree with the message parse (offset shifted).",
+   "The entry point is a per-call knob; sampled calls are re-issued through every other entry point of the same kind on identical arguments and must agree in status, fields and headers; parse_headers on the header part must agree with the message parse (offset shifted). On kept values (reuse histories, a third of the runs) the whole history is run a second time on a second value with the probe issued through another entry point at the capacity the first probe saw: status and start-line fields (headers too on Complete) must agree, so an entry point that treats the value's earlier state differently is seen.",
    "Response has no parse_with_uninit_headers of its own; the uninit response path is ParserConfig::parse_response_with_uninit_headers",
-   SIM + "entry point as per-call knob; pairwise differential"),
+   SIM + "entry point as per-call knob; pairwise differential on fresh values and on identical call histories"),
  "C17": ("fault_enumeration", "§5 C17",
    "Arrays are pre-filled with sentinels (init) or poison (uninit) and snapshotted; after every call the storage monitor checks count, start, untouched slots, whole-array restore after Partial/Err, untouched `headers` for uninit entry points, no poison exposed. Capacity law by differential: capacities 0..k+2 and unlimited are enumerated at sampled cuts (every cut in prefix sweeps is eligible) and must form a step at the independently counted number of completed lines.",
    "capacities enumerated per sampled (buffer, cut); buffers sampled",
    SIM + "early exit (EOF/Err) at every cut through the restore paths; storage monitor; capacity enumeration differential"),
  "C18": ("exploration", "§5 C18",
-   "Histories of 1..4 earlier calls (other messages, prefixes, corrupted ones, any config, init and uninit entry points, relocated or same-address buffers) on one value, then a probe; and connections served by a value kept across Partial / across messages / shared by all connections (interleaving decided by the event queue). Every call on a reused value is repeated on a fresh value of equal capacity: status, and fields/headers on Complete, must be equal.",
+   "Histories of 1..4 earlier calls (other messages, prefixes, corrupted ones, any config, init and uninit entry points, relocated or same-address buffers) on one value, then a probe (one history in 40 is a threshold history: an unrelated earlier message, growing prefixes of a message with a >= 128..16 KiB element cut near the threshold or between the structural bytes after it, then the message, at one address); and connections served by a value kept across Partial / across messages / shared by all connections (interleaving decided by the event queue). Every call on a reused value is repeated on a fresh value of equal capacity: status, and fields/headers on Complete, must be equal.",
    "histories sampled",
    SIM + "reuse histories and multi-connection interleavings on a shared value; reused-vs-fresh differential"),
  "C19": ("exploration", "§5 C19",
